@@ -180,3 +180,51 @@ def prune_contradictions(fn, dnf):
         if not bad:
             out.append(c)
     return out
+
+
+def term_match(a, b):
+    """structural equality of two symex terms in which an unresolved local (`_N`) on either side matches any sub-term: two prints of
+    the same source expression can be resolved to different depths"""
+    a = strip(a) if isinstance(a, tuple) else a
+    b = strip(b) if isinstance(b, tuple) else b
+    if isinstance(a, tuple) and a and a[0] == 'local':
+        return True
+    if isinstance(b, tuple) and b and b[0] == 'local':
+        return True
+    if isinstance(a, tuple) and isinstance(b, tuple):
+        if len(a) != len(b):
+            return False
+        return all(term_match(x, y) for x, y in zip(a, b))
+    return a == b
+
+
+def alternatives(facts, fn, term, depth=2):
+    """rendered alternatives of a symex term: every multiply-assigned local (`phi_N`) inside it is replaced, one alternative per
+    definition (assignments and call results), up to `depth` levels. `match`/`if` expressions produce such locals, iterator / Option
+    combinators do not, so rules that look for a sub-expression use this to be independent of which form the source uses."""
+    sy = sym(facts, fn)
+
+    def defs_of(n):
+        out = []
+        for (db, ds) in fn.defs().get(n, []):
+            node = fn.def_node((db, ds))
+            if ds != 'T':
+                out.append(sy.rvalue(node['rv']))
+            else:
+                out.append(('call', node['callee'].get('path'), tuple(sy.operand(a_) for a_ in node['args']), node['callee'].get('path')))
+        return out
+
+    def expand(t, d):
+        if not isinstance(t, tuple):
+            return [t]
+        if t and t[0] == 'phi' and d > 0 and isinstance(t[1], int):
+            alts = []
+            for x in defs_of(t[1]):
+                alts.extend(expand(x, d - 1))
+            return alts or [t]
+        parts = [expand(x, d) for x in t]
+        res = [()]
+        for alts in parts:
+            res = [r + (a_,) for r in res for a_ in alts][:16]
+        return res
+    return [render(strip(x)) if isinstance(x, tuple) else str(x) for x in expand(term, depth)]
